@@ -19,9 +19,9 @@ class Out(core.Outcome):
 class C44(core.Prop):
     id = "C44"
     drivers = ["mcds_driver"]
-    ready = False
+    ready = True
     max_workers = 14
-    sizes = {"quick": 5000, "thorough": 150000}
+    sizes = {"quick": 3000, "thorough": 60000}
     technique = ("property-based testing (Hypothesis) of udpor Unfolding/UnfoldingEvent/EventSet/History/Configuration/"
                  "maximal_subsets_iterator and the xbt subset enumerators against a brute-force set-theoretic reference over bit masks")
     rule = ("Hypothesis-generated unfoldings of <=15 events built by mcds_driver (in-process) with Unfolding::discover_event from REAL "
@@ -36,7 +36,8 @@ class C44(core.Prop):
             "(12 in the thorough tier) is_valid_configuration/is_maximal/is_conflict_free/get_largest_maximal_subset/History; for "
             "generated sets, their closures and maximal parts additionally History iteration/contains/maximal events, "
             "conflicts_with_any, topological orders; Configuration construction (throws iff invalid), latest event per actor, "
-            "compatibility with every event and with histories, history differences, add_event sequences; "
+            "compatibility with every event and with histories, history differences, add_event sequences, k-partial alternatives; "
+            "EventSet union/difference/intersection/inclusion/equality (pure and in-place, EventSet and Configuration flavours); "
             "maximal_subsets_iterator (with filters and size limits) and the k-subset, powerset and variable_for_loop enumerators "
             "must yield every qualifying set exactly once.  Non-trivial: >=2 events in conflict and causal depth >=3. "
             "Distinct = distinct canonical JSON.")
@@ -46,7 +47,8 @@ class C44(core.Prop):
                    "k-subsets with k = 0 and in_history_of(e, e) are not asserted (the code and the set-theoretic reading differ by convention)"]
 
     def strategy(self, tier):
-        return unf.unf_cases(max_events=15, tier=tier)
+        # thorough: beyond the statement's bound (20 events), all subsets of the first 12
+        return unf.unf_cases(max_events=20 if tier == "thorough" else 15, tier=tier)
 
     def fixed_cases(self, tier):
         if os.environ.get("VF_NO_FIXED"):
@@ -116,6 +118,13 @@ class C44(core.Prop):
             extra = [canon[x % n] for x in case["sets"][(si + 1) % len(raw)][:2]]
             q.append(["add", order + extra])
             q.append(["add", [canon[x % n] for x in case["sets"][si]]])
+            q.append(["algebra", members(S), members(T), canon[(si * 5 + len(case["sets"][si])) % n]])
+            if ref.valid(cl):
+                D = members(T & ~cl)[:3]
+                if D:
+                    q.append(["alt", members(cl), D, len(D)])
+                    if len(D) > 1 and k is not None:
+                        q.append(["alt", members(cl), D, min(k, len(D))])
             F = None if si % 2 == 0 else T
             for X, via in ((cl, 1 if ref.valid(cl) else 0), (S, 0)):
                 base = X if F is None else X & F
@@ -132,7 +141,8 @@ class C44(core.Prop):
         q.append(["vfl", it[3]])
         return ref, canon, dev, q
 
-    def check(self, case, allsets_max=9):
+    def check(self, case):
+        allsets_max = case.get("allsets", 9)
         oc = Out()
         oc.evals = 2
         specs = [e[0] for e in case["events"]]
@@ -178,7 +188,7 @@ class C44(core.Prop):
         # labels
         used = members(ref.used)
         nd = len(used)
-        oc.labels.append("events<=3" if nd <= 3 else "events<=8" if nd <= 8 else "events<=12" if nd <= 12 else "events<=15")
+        oc.labels.append("events<=3" if nd <= 3 else "events<=8" if nd <= 8 else "events<=12" if nd <= 12 else "events<=15" if nd <= 15 else "events<=20")
         depth = 0
         dp = {}
         for i in used:
@@ -460,6 +470,90 @@ class C44(core.Prop):
         self.check_state(oc, ref, a["state"], C, "Configuration() + add_event%s" % qq[1], newest)
         if len(members(C)) >= 3:
             self._seen.add("add-accepted>=3")
+
+    def q_algebra(self, oc, ref, qq, a):
+        A, B, e = mask_of(qq[1]), mask_of(qq[2]), qq[3]
+        E = 1 << e
+        clB = ref.closure(B)
+        exp = {"union": A | B, "union_e": A | E, "minus": A & ~B, "minus_e": A & ~E, "inter": A & B, "m_union": A | B, "m_minus": A & ~B,
+               "m_insert": A | E, "m_remove": A & ~E, "a_after": A, "vector": A}
+        if "c_invalid" in a:
+            if ref.valid(clB):
+                oc.bad("configuration-ctor", "Configuration(%s) throws but the set is a configuration" % members(clB))
+        else:
+            exp.update({"c_union": A | clB, "c_minus": A & ~clB, "cm_union": A | clB, "cm_minus": A & ~clB, "from_config": clB})
+        for key, m in exp.items():
+            if a[key] != members(m):
+                oc.bad("set-algebra:" + key, "A = %s, B = %s, e = %d: %s gives %s, expected %s" % (qq[1], qq[2], e, key, a[key], members(m)))
+        flags = {"intersects": bool(A & B), "subset": A & ~B == 0, "eq": A == B, "ne": A != B, "empty": A == 0, "size": len(members(A)),
+                 "equiv": bool(A & E), "hinter": bool(A & clB)}
+        for key, v in flags.items():
+            if a[key] != v:
+                oc.bad("set-algebra:" + key, "A = %s, B = %s, e = %d: %s is %s, expected %s" % (qq[1], qq[2], e, key, a[key], v))
+        if A & B and A & ~B and B & ~A:
+            self._seen.add("algebra-overlap")
+
+    def q_alt(self, oc, ref, qq, a):
+        """Configuration(C).compute_k_partial_alternative_to(D, U, k): a configuration J with C + J a configuration, J disjoint from D,
+        holding for each of (some) k events of D an event in conflict with it; nullopt only when there is none."""
+        import itertools
+        C = mask_of(qq[1])
+        D = qq[2]
+        Dm = mask_of(D)
+        k = qq[3]
+        what = "Configuration(%s).compute_k_partial_alternative_to(D=%s, k=%d)" % (qq[1], D, k)
+        used = members(ref.used)
+
+        def weak(i, j):
+            return bool((ref.conf[i] >> j) & 1) and not self.both_sides(ref, i, j)
+
+        def strong(i, j):
+            return bool((ref.conf[i] >> j) & 1)
+
+        def outcomes(rel, subset):
+            spikes = [[e for e in used if rel(d, e) and not ref.le[e] & Dm and ref.valid(C | ref.le[e])] for d in subset]
+            res = set()
+            n = 0
+            for combo in itertools.product(*spikes):
+                n += 1
+                if n > 20000:
+                    return None
+                if any(rel(x, y) for x, y in itertools.combinations(set(combo), 2)):
+                    continue
+                J = 0
+                for e in combo:
+                    J |= ref.le[e]
+                res.add(J if ref.valid(J) else "throws")
+            return res or {None}
+        got = "throws" if "throws" in a else None if a["J"] is None else mask_of(a["J"])
+        subsets = list(itertools.combinations(D, k))
+        ok_strong = ok_weak = False
+        for sub in subsets:
+            o1 = outcomes(strong, sub)
+            o2 = outcomes(weak, sub)
+            if o1 is None or o2 is None:
+                return
+            ok_strong = ok_strong or got in o1
+            ok_weak = ok_weak or got in o2
+        shown = got if got in ("throws", None) else members(got)
+        if not ok_strong:
+            sig = "alternative" + (":inherited-on-both-sides" if ok_weak else "")
+            if got == "throws":
+                oc.bad(sig, "%s throws std::invalid_argument (%s)" % (what, a["throws"]))
+            elif got is None:
+                oc.bad(sig, "%s finds no alternative although one exists" % what)
+            else:
+                why = []
+                if not ref.valid(got):
+                    why.append("it is not a configuration")
+                if not ref.valid(C | got):
+                    why.append("C + J is not a configuration")
+                if got & Dm:
+                    why.append("it meets D")
+                if not any(all(ref.conf[d] & got for d in sub) for sub in subsets):
+                    why.append("no %d events of D are each in conflict with an event of J" % k)
+                oc.bad(sig, "%s = %s is not an alternative: %s" % (what, shown, "; ".join(why) or "not the union of local configurations of conflicting events"))
+        self._seen.add("alt-none" if got is None else "alt-throws" if got == "throws" else "alt-found")
 
     def q_msi(self, oc, ref, qq, a):
         X = mask_of(qq[1])
